@@ -264,3 +264,273 @@ Proof.
   intro Hb. apply bytes_ok_cons in Hb as [Ha Hp]. cbn [encode]. unfold dstate0.
   apply (enc_dec p dict_empty sched0 a [a] dtab_empty None Hp (inv_init a Ha)).
 Qed.
+
+(* ================================================================ *)
+(* Part 3: the widths the writer uses are the reader's              *)
+(* ================================================================ *)
+
+(* a token stream that a reader starting with counters s reads back code by
+   code: each width is the reader's current width, each code fits it, the
+   stream ends with its only eof code *)
+Fixpoint wf_stream (s : sched) (l : list token) : Prop :=
+  match l with
+  | [] => False
+  | t :: r =>
+      fst t = s_width s /\ 9 <= fst t /\ snd t < 2 ^ fst t /\
+      (if snd t =? eof_code then r = []
+       else wf_stream (if snd t =? clear_code then sched0 else fst (r_advance s)) r)
+  end.
+
+Definition dict_range (d : dict) (h : N) : Prop :=
+  forall key k, PositiveMap.find key d = Some k -> 258 <= k <= h.
+
+Lemma wf_stream_eof s : width_ok s -> wf_stream s [(s_width s, eof_code)].
+Proof.
+  intro Hw. destruct (width_ok_pow s Hw) as [_ Hr]. cbn [wf_stream fst snd].
+  repeat split; try lia.
+  - unfold eof_code. apply N.lt_le_trans with (2 ^ 9); [reflexivity|].
+    apply N.pow_le_mono_r; lia.
+Qed.
+
+Lemma code_fits s c : width_ok s -> c < s_overflow s -> c < 2 ^ s_width s.
+Proof. intros Hw Hc. destruct (width_ok_pow s Hw) as [E _]. now rewrite <- E. Qed.
+
+Lemma enc_wf : forall p d s code,
+  bytes_ok p = true ->
+  wf_sched s -> (code < 256 \/ 258 <= code <= s_hi s) -> dict_range d (s_hi s) ->
+  wf_stream s (enc_loop d s code p).
+Proof.
+  induction p as [|x p IH]; intros d s code Hb Hwf Hcode Hd.
+  - cbn [enc_loop].
+    destruct (inc_hi_spec s Hwf) as (s1 & Ew & Er & Hh & Hwo & Hlt & Hwf1).
+    rewrite Ew.
+    pose proof (wf_width_ok s Hwf) as Hws. destruct (width_ok_pow s Hws) as [Eo Hr].
+    assert (Hov : s_hi s < s_overflow s) by (destruct Hwf; tauto).
+    cbn [wf_stream fst snd].
+    assert (E1 : (code =? eof_code) = false) by (unfold eof_code; lia).
+    assert (E2 : (code =? clear_code) = false) by (unfold clear_code; lia).
+    rewrite E1, E2, Er. cbn [fst].
+    split; [reflexivity|]. split; [lia|]. split.
+    { apply code_fits; [assumption|]. destruct Hwf as (? & ? & ? & ?). lia. }
+    destruct (s_hi s + 1 =? 4095).
+    + destruct (width_ok_pow s1 Hwo) as [Eo1 Hr1].
+      cbn [wf_stream fst snd]. cbn [N.eqb clear_code eof_code Pos.eqb].
+      split; [reflexivity|]. split; [lia|]. split.
+      { apply N.lt_le_trans with (2 ^ 9); [reflexivity|]. apply N.pow_le_mono_r; lia. }
+      apply (wf_stream_eof sched0). apply wf_width_ok, wf_sched0.
+    + apply wf_stream_eof. assumption.
+  - apply bytes_ok_cons in Hb as [Hx Hp]. cbn [enc_loop].
+    destruct (PositiveMap.find (dkey code x) d) as [k|] eqn:Ef.
+    + apply IH; try assumption. right. apply (Hd _ _ Ef).
+    + destruct (inc_hi_spec s Hwf) as (s1 & Ew & Er & Hh & Hwo & Hlt & Hwf1).
+      rewrite Ew.
+      pose proof (wf_width_ok s Hwf) as Hws. destruct (width_ok_pow s Hws) as [Eo Hr].
+      cbn [wf_stream fst snd].
+      assert (E1 : (code =? eof_code) = false) by (unfold eof_code; lia).
+      assert (E2 : (code =? clear_code) = false) by (unfold clear_code; lia).
+      rewrite E1, E2, Er. cbn [fst].
+      split; [reflexivity|]. split; [lia|]. split.
+      { apply code_fits; [assumption|]. destruct Hwf as (? & ? & ? & ?). lia. }
+      destruct (s_hi s + 1 =? 4095) eqn:E95.
+      * destruct (width_ok_pow s1 Hwo) as [Eo1 Hr1].
+        cbn [wf_stream fst snd]. cbn [N.eqb clear_code eof_code Pos.eqb].
+        split; [reflexivity|]. split; [lia|]. split.
+        { apply N.lt_le_trans with (2 ^ 9); [reflexivity|]. apply N.pow_le_mono_r; lia. }
+        apply IH; [exact Hp|apply wf_sched0|left|].
+        -- exact Hx.
+        -- intros key k Hf. unfold dict_empty in Hf. rewrite PositiveMap.gempty in Hf. discriminate.
+      * assert (Hne : s_hi s + 1 <> 4095) by lia.
+        apply IH; [exact Hp|apply (Hwf1 Hne)|left|].
+        -- exact Hx.
+        -- intros key k Hf.
+           destruct (Pos.eq_dec key (dkey code x)) as [->|Nk].
+           ++ rewrite PositiveMap.gss in Hf. inversion Hf; subst. destruct Hwf; lia.
+           ++ rewrite PositiveMap.gso in Hf by assumption. specialize (Hd _ _ Hf). lia.
+Qed.
+
+(* ================================================================ *)
+(* Part 4: bit level                                                *)
+(* ================================================================ *)
+
+Lemma code_bits_length w c : length (code_bits w c) = w.
+Proof. induction w; cbn [code_bits length]; congruence. Qed.
+
+Lemma take_code_bits : forall w c rest acc,
+  take_bits w (code_bits w c ++ rest) acc = Some (acc * 2 ^ N.of_nat w + c mod 2 ^ N.of_nat w, rest).
+Proof.
+  induction w as [|w IH]; intros c rest acc.
+  - cbn [code_bits app take_bits N.of_nat]. rewrite N.pow_0_r, N.mod_1_r. do 2 f_equal. lia.
+  - cbn [code_bits app take_bits]. rewrite IH. do 2 f_equal.
+    rewrite Nat2N.inj_succ, N.pow_succ_r'.
+    rewrite N.testbit_spec'.
+    set (P := 2 ^ N.of_nat w).
+    assert (HP : P <> 0) by (apply N.pow_nonzero; discriminate).
+    rewrite (N.mul_comm 2 P), N.mod_mul_r by (try assumption; discriminate).
+    lia.
+Qed.
+
+Lemma read_pack : forall l s tail fuel, wf_stream s l ->
+  (length (stream_bits l ++ tail) <= fuel)%nat ->
+  read_codes fuel s (stream_bits l ++ tail) = (map snd l, true).
+Proof.
+  induction l as [|[w c] r IH]; intros s tail fuel Hwf Hlen; [destruct Hwf|].
+  cbn [wf_stream fst snd] in Hwf. destruct Hwf as (Ew & H9 & Hc & Hrest).
+  unfold stream_bits in *. cbn [flat_map fst snd] in *. fold (stream_bits r) in *.
+  rewrite <- app_assoc in *.
+  rewrite app_length, code_bits_length in Hlen.
+  destruct fuel as [|f]; [lia|].
+  cbn [read_codes]. rewrite <- Ew, take_code_bits, N2Nat.id.
+  rewrite N.mod_small by assumption. cbn [N.mul N.add].
+  destruct (c =? eof_code) eqn:Ee.
+  - subst r. reflexivity.
+  - rewrite IH; [reflexivity|exact Hrest|lia].
+Qed.
+
+Lemma code_bits8_val b7 b6 b5 b4 b3 b2 b1 b0 :
+  code_bits 8 (bits_val [b7; b6; b5; b4; b3; b2; b1; b0] 0) = [b7; b6; b5; b4; b3; b2; b1; b0].
+Proof. destruct b7, b6, b5, b4, b3, b2, b1, b0; reflexivity. Qed.
+
+Lemma bits_of_bytes_cons a r : bits_of_bytes (a :: r) = code_bits 8 a ++ bits_of_bytes r.
+Proof. reflexivity. Qed.
+
+(* unpacking the packed bits gives them back, followed by fewer than 8 zero bits *)
+Lemma pack_unpack : forall n l, (length l <= n)%nat ->
+  exists pad, bits_of_bytes (pack_bytes l) = l ++ pad.
+Proof.
+  induction n as [|n IH]; intros l Hl.
+  - destruct l; [|cbn in Hl; lia]. exists []. reflexivity.
+  - destruct l as [|b7 [|b6 [|b5 [|b4 [|b3 [|b2 [|b1 [|b0 r]]]]]]]].
+    + exists []. reflexivity.
+    + exists (repeat false 7). destruct b7; reflexivity.
+    + exists (repeat false 6). destruct b7, b6; reflexivity.
+    + exists (repeat false 5). destruct b7, b6, b5; reflexivity.
+    + exists (repeat false 4). destruct b7, b6, b5, b4; reflexivity.
+    + exists (repeat false 3). destruct b7, b6, b5, b4, b3; reflexivity.
+    + exists (repeat false 2). destruct b7, b6, b5, b4, b3, b2; reflexivity.
+    + exists (repeat false 1). destruct b7, b6, b5, b4, b3, b2, b1; reflexivity.
+    + destruct (IH r) as [pad Ep]; [cbn [length] in Hl; lia|].
+      exists pad. cbn [pack_bytes]. rewrite bits_of_bytes_cons, code_bits8_val, Ep. reflexivity.
+Qed.
+
+(* ================================================================ *)
+(* Part 5: the theorems                                             *)
+(* ================================================================ *)
+
+Lemma encode_wf a p : bytes_ok (a :: p) = true -> wf_stream sched0 (encode (a :: p)).
+Proof.
+  intro Hb. apply bytes_ok_cons in Hb as [Ha Hp]. cbn [encode].
+  apply enc_wf; [assumption|apply wf_sched0|now left|].
+  intros key k Hf. unfold dict_empty in Hf. rewrite PositiveMap.gempty in Hf. discriminate.
+Qed.
+
+(* bit level: the codes read from the packed stream are the codes written *)
+Lemma bit_roundtrip l :
+  wf_stream sched0 l ->
+  let bits := bits_of_bytes (pack_bytes (stream_bits l)) in
+  read_codes (length bits) sched0 bits = (map snd l, true).
+Proof.
+  intros Hwf bits. subst bits.
+  destruct (pack_unpack _ (stream_bits l) (le_n _)) as [pad Ep]. rewrite Ep.
+  apply read_pack; [assumption|apply le_n].
+Qed.
+
+Lemma wf_stream_bits_nonempty s l : wf_stream s l -> stream_bits l <> [].
+Proof.
+  destruct l as [|[w c] r]; [intros []|]. cbn [wf_stream fst snd]. intros (_ & H9 & _).
+  unfold stream_bits. cbn [flat_map fst snd].
+  destruct (N.to_nat w) as [|k] eqn:E; [lia|]. cbn [code_bits app]. discriminate.
+Qed.
+
+Lemma pack_bytes_nonempty l : l <> [] -> pack_bytes l <> [].
+Proof.
+  intros Hl Hp. destruct (pack_unpack _ l (le_n _)) as [pad Ep]. rewrite Hp in Ep.
+  cbn in Ep. destruct l; [congruence|discriminate].
+Qed.
+
+Lemma decompress_raw_nonempty bs : bs <> [] ->
+  decompress_raw bs =
+  dec_loop dstate0 (fst (read_codes (length (bits_of_bytes bs)) sched0 (bits_of_bytes bs))).
+Proof. destruct bs; [congruence|reflexivity]. Qed.
+
+Lemma raw_roundtrip x : bytes_ok x = true -> decompress_raw (compress x) = (x, StEof).
+Proof.
+  intro Hb. destruct x as [|a p]; [reflexivity|].
+  pose proof (encode_wf a p Hb) as Hwf.
+  unfold compress.
+  rewrite decompress_raw_nonempty
+    by (apply pack_bytes_nonempty; apply (wf_stream_bits_nonempty sched0); exact Hwf).
+  rewrite (bit_roundtrip _ Hwf). cbn [fst].
+  now apply encode_decode.
+Qed.
+
+Theorem lzw_roundtrip x : bytes_ok x = true -> decompress (compress x) = Some x.
+Proof. intro Hb. unfold decompress. now rewrite raw_roundtrip. Qed.
+
+Theorem lzw_roundtrip_lenient x : bytes_ok x = true -> decompress_lenient (compress x) = x.
+Proof. intro Hb. unfold decompress_lenient. now rewrite raw_roundtrip. Qed.
+
+Theorem lzw_empty : compress [] = [] /\ decompress [] = Some [] /\ decompress_lenient [] = [].
+Proof. repeat split. Qed.
+
+Theorem lzw_compress_injective x y :
+  bytes_ok x = true -> bytes_ok y = true -> compress x = compress y -> x = y.
+Proof.
+  intros Hx Hy E. pose proof (lzw_roundtrip x Hx) as Rx. rewrite E, (lzw_roundtrip y Hy) in Rx.
+  now inversion Rx.
+Qed.
+
+Theorem lzw_nonempty x : bytes_ok x = true -> x <> [] -> compress x <> [].
+Proof.
+  intros Hb Hx E. apply Hx. apply (lzw_compress_injective x []); [assumption|reflexivity|].
+  now rewrite E.
+Qed.
+
+(* the first code is the literal first byte, written with 9 bits: no clear code in front *)
+Lemma enc_loop_first a p : exists r, enc_loop dict_empty sched0 a p = (9, a) :: r.
+Proof.
+  destruct p as [|x p]; cbn [enc_loop].
+  - eexists. reflexivity.
+  - unfold dict_empty at 1. rewrite PositiveMap.gempty. eexists. reflexivity.
+Qed.
+
+Theorem lzw_no_leading_clear a p :
+  bytes_ok (a :: p) = true ->
+  first_code (compress (a :: p)) = Some a /\ a <> clear_code.
+Proof.
+  intro Hb. pose proof Hb as Hb'. apply bytes_ok_cons in Hb' as [Ha _].
+  split; [|unfold clear_code; lia].
+  unfold first_code, compress.
+  destruct (pack_unpack _ (stream_bits (encode (a :: p))) (le_n _)) as [pad Ep]. rewrite Ep.
+  cbn [encode]. destruct (enc_loop_first a p) as [r Er]. rewrite Er.
+  unfold stream_bits. cbn [flat_map fst snd]. rewrite <- app_assoc.
+  change (N.to_nat 9) with 9%nat.
+  rewrite take_code_bits. cbn [option_map fst].
+  rewrite N.mod_small; [reflexivity|]. change (2 ^ N.of_nat 9) with 512. lia.
+Qed.
+
+(* code level, stated on its own *)
+Theorem lzw_code_roundtrip a p :
+  bytes_ok (a :: p) = true -> dec_loop dstate0 (map snd (encode (a :: p))) = (a :: p, StEof).
+Proof. exact (encode_decode a p). Qed.
+
+(* bit level, stated on its own: for every token stream whose widths follow the reader *)
+Theorem lzw_bit_roundtrip l :
+  wf_stream sched0 l ->
+  fst (read_codes (length (bits_of_bytes (pack_bytes (stream_bits l)))) sched0
+                  (bits_of_bytes (pack_bytes (stream_bits l)))) = map snd l.
+Proof. intro Hwf. now rewrite (bit_roundtrip l Hwf). Qed.
+
+(* the reader also accepts a leading clear code (the format of Go's compress/lzw) *)
+Theorem lzw_reader_accepts_leading_clear cs : dec_loop dstate0 (clear_code :: cs) = dec_loop dstate0 cs.
+Proof. reflexivity. Qed.
+
+(* ---------- non-vacuity examples ---------- *)
+
+(* 'aaaaaaa' uses the code being defined (KwKwK): codes 97 258 259 97 eof *)
+Example ex_kwkwk : map snd (encode [97; 97; 97; 97; 97; 97; 97]) = [97; 258; 259; 97; 257]
+  /\ bytes_ok [97; 97; 97; 97; 97; 97; 97] = true
+  /\ compress [97; 97; 97; 97; 97; 97; 97] = [48; 192; 160; 102; 24; 8].
+Proof. vm_compute. repeat split. Qed.
+
+Example ex_wf_stream : wf_stream sched0 (encode [0; 0; 0; 1]).
+Proof. apply encode_wf. reflexivity. Qed.
